@@ -20,17 +20,24 @@ static void run_case(CaseCtx& c)
         go.nr_min = go.nr_max = 7;
         go.nth_min = go.nth_max = rng.pick({4, 8});
     }
+    // a few levels above 10 000 nodes (thresholds of `omp parallel if` clauses and of the parallel vector kernels), many threads
+    const bool large = rng.coin(0.04);
+    if (large) {
+        go.nr_min = 81; go.nr_max = 97; go.nth_min = 128; go.nth_max = 160;
+    }
     go.Rmax = rng.pick({1.0, 1.3, 2.0});
     GridSpec gs = gen_grid(rng, go);
     ProblemSpec ps = random_problem(rng, go.Rmax, true);
     bool dirbc = rng.coin();
     int threads = rng.pick({1, 2, 4, 7, 16});
+    if (large)
+        threads = rng.pick({2, 4, 16, 32});
     int cache_combo = rng.range(0, 3);
     int start_kind = rng.range(0, 3);
     static const char* sk[] = {"random", "exact+noise", "exact", "wide"};
     gs.describe(c.obs.params);
     ps.describe(c.obs.params);
-    c.obs.params.b("DirBC_Interior", dirbc).i("threads", threads).i("give_cache_combo", cache_combo).str("start", sk[start_kind]);
+    c.obs.params.b("DirBC_Interior", dirbc).i("threads", threads).i("give_cache_combo", cache_combo).str("start", sk[start_kind]).b("large", large);
 
     ProblemObjs po(ps);
     PolarGrid grid = gs.make();
